@@ -16,7 +16,7 @@ ar rcs $W/libslu.a $W/lib/*.o
 CXX="g++ -std=c++17 -fcx-limited-range -O2 $COMMON -DSIM_COVERAGE -I$REPO/SRC -I$ROOT/sim"
 ( for p in s d c z; do echo "$CXX -DPREC_$p -c $ROOT/sim/drv_impl.cc -o $W/h/drv_$p.o"; done
   for f in sim oracle gen runner monitor minimise simfact ienv; do echo "$CXX -c $ROOT/sim/$f.cc -o $W/h/$f.o"; done ) | xargs -P 16 -I{} sh -c "{}" || exit 2
-g++ --coverage -rdynamic -o $W/simfact $W/h/*.o $W/libslu.a -Wl,--wrap=pthread_create,--wrap=pthread_join,--wrap=pthread_mutex_init,--wrap=pthread_mutex_destroy,--wrap=pthread_mutex_lock,--wrap=pthread_mutex_unlock,--wrap=malloc,--wrap=calloc,--wrap=realloc,--wrap=free,--wrap=exit -lpthread -ldl -lm || exit 2
+g++ --coverage -rdynamic -o $W/simfact $W/h/*.o $W/libslu.a -Wl,--wrap=pthread_create,--wrap=pthread_join,--wrap=pthread_exit,--wrap=pthread_mutex_init,--wrap=pthread_mutex_destroy,--wrap=pthread_mutex_lock,--wrap=pthread_mutex_unlock,--wrap=malloc,--wrap=calloc,--wrap=realloc,--wrap=free,--wrap=exit -lpthread -ldl -lm || exit 2
 for prof in ssv strf pipe term mem sing svx hist leak symleak sym carry forest tiny alloc; do
   S=8; C=$N; [ $prof = alloc ] && { S=128; C=$((N / 128 * 128 + 1280)); }
   $W/simfact batch --profile $prof --base 990000000 --count $C --workers 12 --tier 0 --S $S --out $W/sum_$prof.json --known $ROOT/known_findings.json \
